@@ -250,6 +250,9 @@ def run(prop, replay_file=None):
                 elif name != "bah" and got["clock"][0] == "ok":
                     # every scheduled instant meets an event of the REAL clock for the same range (all four phases on)
                     pass
+            if got["clock"][0] != "ok" and any(got[nm][0] == "ok" and got[nm][1] for nm in ("weekly", "daily", "eom")):
+                # the clock refuses a range for which the schedules hold instants: none of them can meet a clock event
+                viol("clock|refuses-a-scheduled-range", "the schedules hold instants for this range but the clock raised %s" % (got["clock"][1],))
             if got["clock"][0] == "ok":
                 from qstrader.simulation.daily_bday import DailyBusinessDaySimulationEngine
                 full = set(minutes(e.ts) for e in DailyBusinessDaySimulationEngine(ts(case[0]), ts(case[1]), True, True))
